@@ -625,6 +625,11 @@ def h_r1(p: Project, rep: Report):
                         pass
                     else:
                         altered = body_t + "  [a text wrapper in universal-newlines mode rewrites every \\r\\n and lone \\r of the body to \\n]"
+                elif _re.match(r"^(\w+)\.decode\(", body_t) and _bytes_local_from_read(fn, _re.match(r"^(\w+)\.decode\(", body_t).group(1), src):
+                    altered = body_t + f"  [{_bytes_local_from_read(fn, _re.match(r'^(\w+)', body_t).group(1), src)}: the bytes read are cut or rewritten before they are decoded, so part of the file never reaches the parser]"
+                elif f"{src}.read()" in body_t and ".decode(" in body_t and f"{src}.read().decode(" not in body_t and "TextIOWrapper(" not in body_t:
+                    # something stands between reading the remainder and decoding it: the BYTES are cut or rewritten
+                    altered = body_t + "  [the bytes read are processed before they are decoded: whatever that step removes never reaches the parser]"
                 elif f"{src}.read().decode(" in body_t and (_re.search(r"\)\[[^\]]*:[^\]]*\]", body_t) or ".rfind(" in body_t or ".find(" in body_t or ".replace(" in body_t or ".split(" in body_t or ".partition(" in body_t or ".rpartition(" in body_t):
                     altered = body_t
                 else:
@@ -636,6 +641,24 @@ def h_r1(p: Project, rep: Report):
     strips = [c_ for c_ in ast.walk(fn) if isinstance(c_, ast.Call) and isinstance(c_.func, ast.Attribute) and c_.func.attr in ("strip", "lstrip", "rstrip") and c_.args]
     for c_ in strips:
         rep.check("H-R1", "parse_header:strip-with-characters", False, f"{text(c_)[:60]} removes characters other than whitespace", hloc(p, c_))
+
+
+def _bytes_local_from_read(fn, name: str, src: str):
+    """how the local `name` is bound when it is cut out of `<src>.read()` (unpacking / subscript / method of the bytes
+    read) - text of the binding, or None when it is not derived that way"""
+    for st in ast.walk(fn):
+        if not isinstance(st, ast.Assign) or len(st.targets) != 1:
+            continue
+        tg = st.targets[0]
+        names = [x.id for x in ast.walk(tg) if isinstance(x, ast.Name)]
+        if name not in names:
+            continue
+        v = st.value
+        if f"{src}.read()" not in text(v):
+            continue
+        if isinstance(tg, (ast.Tuple, ast.List)) or text(v) != f"{src}.read()":
+            return text(st)[:70]
+    return None
 
 
 def h_r2(p: Project, rep: Report):
